@@ -896,9 +896,8 @@ def gen_problem_text(rng, wide=False, extras=True):
 
 
 def gen_case(rng, latch_props, latch_rate=0.15):
-    # tally / sdef cards keep a parser instance (with a generator) on the data input: such problems cannot be
-    # deep-copied or pickled at all (TypeError, the same in every history); most cases avoid them
-    text, meta = gen_problem_text(rng, wide=True, extras=rng.random() < 0.35)
+    # (before fix 977aa06 problems with tally / sdef cards could not be deep-copied or pickled at all)
+    text, meta = gen_problem_text(rng, wide=True, extras=rng.random() < 0.6)
     prog = ED.gen_program(rng, meta, n=rng.choice([1, 2, 3, 5]))
     steps = [{"s": "edit", "e": e} for e in prog]
     surfs = meta["surfaces"]
@@ -1503,7 +1502,7 @@ def run(ctx):
     st_alone = fork_map(real_setter, [(dict(c, hist=[]),) for c in st_cases])
     st_reqs = [setter_request(c, props_by_name, facts["class_anc"]) for c in st_cases]
     # ---- correspondence C
-    cp_texts = [gen_problem_text(random.Random(f"{ctx.seed}:C17:c:{i}"), extras=(i % 4 == 0))[0] for i in range(n_copy)]
+    cp_texts = [gen_problem_text(random.Random(f"{ctx.seed}:C17:c:{i}"), extras=(i % 2 == 0))[0] for i in range(n_copy)]
     cp_real = fork_map(real_copy, [(t,) for t in cp_texts])
     cp_ok = [(t, r) for t, r in zip(cp_texts, cp_real) if "__crash__" not in r and "error" not in r]
     cp_err = {}
@@ -1619,6 +1618,12 @@ def run(ctx):
                 c = c.get("case", c)
                 if c.get("kind") == "history":
                     corpus.append(c)
+                elif c.get("kind") in ("latch", "setter-history"):
+                    # fixed findings: the same call must be judged the same with and without the history
+                    a, b2 = fork_map(latch_probe, [(dict(c, hist=[]),), (c,)])
+                    ctx.count_case(("corpus", f), nontrivial=True)
+                    if a.get("call") != b2.get("call") or "__crash__" in a or "__crash__" in b2:
+                        ctx.fail(dict(c, kind="setter-history", alone=a.get("call"), after_history=b2.get("call")))
     cases = corpus + [gen_case(random.Random(f"{ctx.seed}:C17:h:{i}"), facts["latch"]) for i in range(n_hist)]
     args = []
     for c in cases:
